@@ -9,7 +9,7 @@
 (* one run reports all deviations.  No expectation is computed outside the *)
 (* specification modules this module extends.                              *)
 (***************************************************************************)
-EXTENDS Bytes, Prim, HdwIO, Numbers, Rlp, Ecdsa, Tx, Json, IOUtils, TLC, FiniteSets
+EXTENDS Bytes, Prim, HdwIO, Numbers, Rlp, Ecdsa, Tx, Bip39, Json, IOUtils, TLC, FiniteSets
 
 Rec == ndJsonDeserialize(IOEnv.HDW_TRACE)
 
@@ -85,9 +85,90 @@ JudgeTxSign(e) ==
           ELSE {})]
 
 -----------------------------------------------------------------------------
+\* hook sweeps of the private RLP primitives: out.ok.hex must be the spec encoding
+Exact(e, expected, props, reason) ==
+  LET o == e.out IN
+  [cls |-> "accept",
+   devs |-> CrashDevs(o) \cup
+            (IF IsOk(o) /\ Hx(o.ok.hex) = expected THEN {}
+             ELSE {D(props, reason, IF IsOk(o) THEN o.ok.hex ELSE "no result")})]
+
+JudgeRlpLen(e) ==
+  Exact(e, LenHdrBn(BnFromDec(DecVals(StrToUtf8(e.in.len))), e.in.off), {"C07"}, "rlp_len")
+JudgeRlpBytes(e) == Exact(e, EncBytes(Hx(e.in.data)), {"C07"}, "rlp_bytes")
+JudgeRlpUint(e)  == Exact(e, EncUint(Hx(e.in.value)), {"C07"}, "rlp_uint")
+JudgeRlpList(e)  ==
+  Exact(e, EncListRaw([i \in 1..Len(e.in.items) |-> Hx(e.in.items[i])]), {"C07"}, "rlp_list")
+
+-----------------------------------------------------------------------------
+\* mnemonic.parse : in = [text]   out.ok = [phrase, display, len, reparsed]
+MnParseDevs(o, p, props) ==
+  IF IsOk(o) THEN
+    (IF p.c = "reject" THEN {D(props, "accepted_invalid_" \o p.why, o.ok.phrase)}
+     ELSE (IF o.ok.phrase # p.phrase \/ o.ok.display # p.phrase THEN {D(props, "phrase_mismatch", o.ok.phrase)} ELSE {})
+          \cup (IF o.ok.len # p.n THEN {D(props, "length_mismatch", ToString(o.ok.len))} ELSE {})
+          \cup (IF o.ok.reparsed # p.phrase THEN {D(props, "print_parse_not_inverse", "")} ELSE {}))
+  ELSE IF IsErr(o) THEN (IF p.c = "accept" THEN {D(props, "rejected_valid", o.err)} ELSE {})
+  ELSE IF p.c \in {"accept", "reject"} THEN {D(props, "crash_" \o p.c, "")}
+  ELSE {}
+
+JudgeMnParse(e) ==
+  LET p == ParsePhrase(StrToCps(e.in.text))
+  IN  [cls |-> p.c, devs |-> CrashDevs(e.out) \cup MnParseDevs(e.out, p, {"C01"})]
+
+\* mnemonic.seed : in = [text, pass]   out.ok = [seed]
+JudgeMnSeed(e) ==
+  LET o == e.out
+      p == ParsePhrase(StrToCps(e.in.text))
+  IN  [cls |-> p.c,
+       devs |-> CrashDevs(o) \cup
+         (IF IsOk(o) THEN
+            (IF p.c = "reject" THEN {D({"C01"}, "accepted_invalid_" \o p.why, "")}
+             ELSE IF Hx(o.ok.seed) # SeedOf(p.phrase, StrToCps(e.in.pass)) THEN {D({"C02"}, "seed_mismatch", o.ok.seed)}
+             ELSE {})
+          ELSE IF IsErr(o) THEN (IF p.c = "accept" THEN {D({"C01", "C02"}, "rejected_valid", o.err)} ELSE {})
+          ELSE {})]
+
+\* mnemonic.random : in = [len, feed?, fail_at]  out = ok [phrase, len, reparsed] | err ; out.reqs = <<[len, rc, hex]>>
+\* The environment (Entropy.tla) answers each request with Grant(bytes) or Refuse.
+IsSlice(small, big) ==
+  \E off \in 0..(Len(big) - Len(small)) : SubSeq(big, off + 1, off + Len(small)) = small
+JudgeMnRandom(e) ==
+  LET o == e.out
+      wl == e.in.len
+      reqs == IF Has(o, "reqs") THEN o.reqs ELSE <<>>
+      refused == \E k \in 1..Len(reqs) : reqs[k].rc # 0
+      props == {"C12"}
+  IN  [cls |-> IF wl \in ValidCounts THEN "accept" ELSE "reject",
+       devs |-> CrashDevs(o) \cup
+         (IF IsOk(o) THEN
+            LET p == ParsePhrase(StrToCps(o.ok.phrase)) IN
+            (IF ~(wl \in ValidCounts) THEN {D(props \cup {"C01"}, "generated_unsupported_length", ToString(wl))} ELSE {})
+            \cup (IF refused THEN {D(props, "phrase_after_entropy_failure", "")} ELSE {})
+            \cup (IF p.c # "accept" THEN {D(props, "generated_phrase_not_valid", o.ok.phrase)}
+                  ELSE (IF p.n # wl \/ o.ok.len # wl THEN {D(props, "generated_length_mismatch", ToString(p.n))} ELSE {})
+                       \cup (IF o.ok.reparsed # o.ok.phrase THEN {D(props, "generated_not_parsed_back", "")} ELSE {})
+                       \cup (IF ~(\E k \in 1..Len(reqs) : reqs[k].rc = 0 /\ IsSlice(EntropyOfIdx(p.idx), Hx(reqs[k].hex)))
+                             THEN {D(props, "entropy_not_from_source", o.ok.phrase)} ELSE {})
+                       \* with an injected feed the phrase is determined: entropy = the first bytes granted
+                       \cup (IF Has(e.in, "feed") /\ wl \in ValidCounts
+                                /\ o.ok.phrase # PhraseOfEntropy(SubSeq(Hx(e.in.feed), 1, EntBytes(wl)))
+                             THEN {D(props \cup {"C01"}, "phrase_not_entropy_image", o.ok.phrase)} ELSE {}))
+          ELSE IF IsErr(o) THEN
+            (IF wl \in ValidCounts /\ ~refused THEN {D(props, "spurious_generation_error", o.err)} ELSE {})
+          ELSE {D(props, "crash_in_generation", "")})]
+
+-----------------------------------------------------------------------------
 JudgeEvent(e) ==
   IF IsSkip(e.out) THEN [cls |-> "skip", devs |-> {}]
-  ELSE CASE e.op = "tx.sign" -> JudgeTxSign(e)
+  ELSE CASE e.op = "tx.sign"   -> JudgeTxSign(e)
+         [] e.op = "mnemonic.parse"  -> JudgeMnParse(e)
+         [] e.op = "mnemonic.seed"   -> JudgeMnSeed(e)
+         [] e.op = "mnemonic.random" -> JudgeMnRandom(e)
+         [] e.op = "rlp.len"   -> JudgeRlpLen(e)
+         [] e.op = "rlp.bytes" -> JudgeRlpBytes(e)
+         [] e.op = "rlp.uint"  -> JudgeRlpUint(e)
+         [] e.op = "rlp.list"  -> JudgeRlpList(e)
 
 Init == l = 1
 Next ==
